@@ -407,7 +407,10 @@ h_raw_lifecycle(void)
     static uint64_t packet[1];
     unsigned steps = 0;
     /* any history of up to 5 driver calls, then close */
-    for (; steps < 5; ++steps) {
+#ifndef LIFECYCLE_STEPS
+#define LIFECYCLE_STEPS 5
+#endif
+    for (; steps < LIFECYCLE_STEPS; ++steps) {
         unsigned op = nd_uchar() % 4;
         if (op == 0) {
             if (s->state == DeviceState_Armed || s->state == DeviceState_AwaitingConfiguration)
